@@ -133,14 +133,14 @@ class Prop(object):
             key = known or ('NEW:' + mech)
             have = ctx.violations.get(key)
             if self.shrinkable(case) and (have is None or len(have['witnesses']) < 2):
-                small, t_o = guarded(self.shrink, 120, case, mech)
+                small, t_o = guarded(self.shrink, 120, case, mech, known is None)
                 if t_o or small is None:
                     small = case
                 v2, t_o = guarded(self.judge_with_history, self.case_timeout, small)
                 if t_o:
                     v2, small = Verdict(), case
                 for m2, k2, msg2 in v2.viol:
-                    if m2 == mech:
+                    if m2 == mech and (known is not None or k2 is None):
                         known, msg = k2, msg2
                         break
                 else:
@@ -162,10 +162,12 @@ class Prop(object):
             c['formula'] = lang.from_jsonable(c['formula'])
         return c
 
-    def shrink(self, case, mech):
+    def shrink(self, case, mech, new_only=False):
+        # a violation that no known finding explains must stay unexplained while it is shrunk (otherwise a new
+        # defect on a formula that also meets the precondition of a known one would be shrunk into the known one)
         def fails(c):
             v = self.judge_with_history(c)
-            return (not v.skip) and mech in v.mechs()
+            return (not v.skip) and any(m == mech and (k is None or not new_only) for m, k, _ in v.viol)
         return lang.shrink(case, fails, budget=self.shrink_budget, shrink_data=self.shrink_data)
 
     def run(self, ctx):
